@@ -248,6 +248,7 @@ def test_generators():
     eq(c11.renderings("v", ()), [("colon", "v", "root")], "root")
     eq([c11.formclass(f) for f in ("p", "G", "root", "K", "I", "I:p", "KK", "KI", "IK", "II", "IKI", "KII", "III", "II:p")],
        ["p", "G", "root", "b1", "b1", "b1:p", "bb.K", "bb.K", "bb.I", "bb.I", "bb.K", "bb.K", "bb.I", "bb.I"], "formclass")  # fmt: skip
+    eq([c11.formclass_ops(f) for f in ("p", "G", "root", "K", "I:p", "KK", "II", "III")], ["p", "G", "root", "b", "b1:p", "b", "b", "b"], "formclass_ops")
     eq(c11.shifted_steps((0, 1), "II"), (1, 1), "shift II")
     eq(c11.shifted_steps((0, 1, 0), "III"), (1, 2, 0), "shift III")
     eq(c11.shifted_steps((0, "a"), "IK"), (1, "a"), "shift IK")
